@@ -6,6 +6,7 @@ import FluteModel.Lemmas.RecvMiniLaw
 import FluteModel.Lemmas.RecvFullLaw
 import FluteModel.Lemmas.RecvWire
 import FluteModel.Props.C04Obj
+import FluteModel.Lemmas.ObjRecvPanicFree
 /-
   C04 - untrusted input, SESSION-LEVEL receiver (`Receiver::push_data` / `push` / `cleanup`):
   no parsed packet, no XML-parser answer, no history can make a receiver call panic; a datagram the
@@ -280,6 +281,48 @@ theorem full_attach_no_fault (h : ObjAttachTotal) (o : Full.Obj) (id : Nat) (fdt
     obtain ⟨r, hr⟩ := h o.st id _ o.reach
     rw [hr] at hw; cases hw
   · exact ho
+
+/-! #### the same with orecv's `TInv` lemmas (landed after the definitions above were named)
+
+  orecv's `tinv_push` / `tinv_attachFdt` (Lemmas/ObjRecvPanicFree.lean) give panic AND hang freedom on
+  states meeting `ObjRecv.TInv` (an invariant of `new`/`push`/`attach_fdt`/`drop`, stronger than
+  `Reach`) for packets / FDT entries with the wire ranges `WfPkt` / `WfFile` (transfer length < 2^48,
+  symbol length < 2^16).  Consumed here ONE CALL at a time; what is still open for "no object ever
+  faults in any history" is (a) the FTI ranges of `ofAlc d p` from the parser (EXT_FTI has a 48-bit
+  length and a 16-bit symbol length; no lemma of agent wire states it yet), (b) Transfer-Length < 2^48
+  for FDT entries - an XML value, i.e. a hypothesis on the oracle input `ans` (orecv: at L ≥ 2^64 − E
+  `block_length` really overflows), (c) the lift to an invariant of `step` over all objects. -/
+
+/-- the wire ranges of a session-level packet carry over to the object-level packet -/
+theorem toPkt_wf (p : Pkt) (h : ∀ f, p.fti = some f → f.len < 2 ^ 48 ∧ f.oti.esl < 2 ^ 16) :
+    ObjRecv.WfPkt (Full.toPkt p) := by
+  intro o l hol
+  simp only [Full.toPkt] at hol
+  cases hf : p.fti with
+  | none => rw [hf] at hol; cases hol
+  | some f =>
+    rw [hf] at hol
+    simp only [Option.map_some, Option.some.injEq, Prod.mk.injEq] at hol
+    obtain ⟨rfl, rfl⟩ := hol
+    exact h f hf
+
+/-- **one push of the full object model never faults** on a `TInv` state, and keeps `TInv` -/
+theorem full_push_no_fault_tinv (o : Full.Obj) (p : Pkt) (ho : o.fault = false) (hT : ObjRecv.TInv o.st)
+    (hp : ∀ f, p.fti = some f → f.len < 2 ^ 48 ∧ f.oti.esl < 2 ^ 16) :
+    (Full.push o p).1.fault = false ∧ ObjRecv.TInv (Full.push o p).1.st := by
+  obtain ⟨st', hst', hT'⟩ := ObjRecv.tinv_push Full.params fullDzOK hT (Full.toPkt p) (toPkt_wf p hp)
+  unfold Full.push
+  rw [if_neg (by rw [ho]; simp)]
+  split
+  · rename_i w hw; rw [hst'] at hw; cases hw
+  · rename_i st'' hw
+    rw [hst'] at hw; injection hw with hw; subst hw
+    exact ⟨ho, hT'⟩
+
+/-- a fresh object meets `TInv` (cache limit below 2^63) -/
+theorem full_new_tinv (toi maxCache : Nat) (hm : maxCache < 2 ^ 63) :
+    ObjRecv.TInv (Full.new toi maxCache).st ∧ (Full.new toi maxCache).fault = false :=
+  ⟨ObjRecv.tinv_new toi maxCache hm, rfl⟩
 
 /-! #### allocation, in the honest form -/
 
